@@ -47,6 +47,19 @@ CLAIMED.update({
             "DESIGN.md §3 C16"),
 })
 
+CLAIMED.update({
+    "C05": ("One inductive step of the real HsmsProtocol from every session state: each control SType and data messages with all 2^32 "
+            "system bytes, session ids, status bytes, the closing flag and an optional open transaction are dispatched through "
+            "Protocol._dispatch_block on a rig with a recording connection; next state, the exact bytes of the single response "
+            "(Select/Deselect/Linktest.rsp or Reject.req with the request's system bytes), delivery / non-delivery and Reject(reason 4) "
+            "for data while not selected are compared with an E37 table. Connect/disconnect events incl. the accept-thread "
+            "interleaving (a Select.req dispatched at the moment the dispatcher starts) are order obligations on _on_connected.",
+            "Trusted: CrossHair + chx, oracles/refe37.py and the E37 table in obligations/C05.py; session state constructed directly "
+            "(active flags per the C18 invariant); protocol thread replaced by an inline sender, Thread/Timer by recording stubs. "
+            "Outside: T6/T7/T8 timers, undefined STypes, messages with bodies (C08). Open finding: inbound Separate.req is ignored.",
+            "DESIGN.md §3 C05"),
+})
+
 NOT_APPLICABLE = {
 }
 
